@@ -121,6 +121,7 @@ def check_csv(case, res, vs):
 # utf8
 U16 = [0x41, 0x7f, 0x80, 0xbf, 0xc2, 0xdf, 0xe0, 0xe2, 0xed, 0xef, 0xf0, 0xf4, 0xa0, 0x9f, 0x90, 0xff]
 UPOS = [None, -1, 0, 1, 2, 3, 4, 5, MAX]
+UINS = [0, 1, 2, 3, -1, MAX]
 
 
 def ptext(p):
@@ -147,6 +148,14 @@ def utf8_gen(tier):
                     ops.append(op_dump(0, "OK,VS,VN,OK2,VS2"))
                     ops.append(op_run("v = utf8(b); ok = v.remove(%s, 1); vs = v.string(); vn = v.count();" % ptext(p)))
                     ops.append(op_dump(0, "OK,VS,VN"))
+                # insertion / concatenation of unicode strings: another string, and the string itself
+                for p in UINS:
+                    for src in ("w", "v"):
+                        ops.append(op_run('v = utf8(b); w = utf8("Z\xc3\xa9"); ok = v.insert(%s, %s); vs = v.string(); vn = v.count(); vr = v.rawsize(); ws = w.string();' % (ptext(p), src)))
+                        ops.append(op_dump(0, "OK,VS,VN,VR,WS"))
+                for src in ("w", "v"):
+                    ops.append(op_run('v = utf8(b); w = utf8("Z\xc3\xa9"); v2 = v.concat(%s); vs = v.string(); vn = v.count(); vr = v.rawsize(); ws = w.string();' % src))
+                    ops.append(op_dump(0, "VS,VN,VR,WS"))
                 ops.append(op_run("w = utf8(u); ws = w.append(65).string(); wu = w.toupper().string(); wc = w.count();"))
                 ops.append(op_dump(0, "N,RS,ST,EM,WS,WC"))
                 yield Case("u%d" % n, ops, {"kind": "utf8", "b": b.hex()})
@@ -231,6 +240,43 @@ def check_utf8(case, res, vs):
                 vs.append(Violation("utf8:remove", "%r: remove(%d,1) gives %s %r %r, Python says %r" % (b, p, run.get("r"), d.get("OK"), d.get("VS"), want), case))
         elif run.get("r") == "ok" and sval(d.get("VS")) != ("s", b):
             vs.append(Violation("utf8:remove-out-of-range", "%r: remove(%r,1) out of range changed the content to %r" % (b, p, d.get("VS")), case))
+    zs = "Z\u00e9"
+    for p in UINS:
+        for src in ("w", "v"):
+            run, d = st[k], st[k + 1].get("vars", {})
+            k += 2
+            ins = zs if src == "w" else text
+            if run.get("r") == "ok":
+                got = sval(d.get("VS"))
+                if got[0] == "s":
+                    if sval(d.get("VR")) != ("i", len(got[1])):
+                        vs.append(Violation("utf8:insert-string:rawsize", "%r: after insert(%r, %s) rawsize is %r but string() has %d bytes" % (b, p, src, d.get("VR"), len(got[1])), case))
+                    try:
+                        if sval(d.get("VN")) != ("i", len(got[1].decode("utf-8"))):
+                            vs.append(Violation("utf8:insert-string:count", "%r: after insert(%r, %s) count is %r, content %r" % (b, p, src, d.get("VN"), got[1]), case))
+                    except UnicodeDecodeError:
+                        vs.append(Violation("utf8:insert-string:invalid", "%r: after insert(%r, %s) the content %r is not valid UTF-8" % (b, p, src, got[1]), case))
+                if 0 <= p <= len(cps):
+                    want = (text[:p] + ins + text[p:]).encode("utf-8")
+                    if got != ("s", want):
+                        vs.append(Violation("utf8:insert-string:%s" % ("self" if src == "v" else "other"), "%r: insert(%d, %s) gives %r, Python says %r" % (
+                            b, p, "itself" if src == "v" else "utf8(%r)" % zs, d.get("VS"), want), case))
+                elif got != ("s", b):
+                    vs.append(Violation("utf8:insert-string-out-of-range", "%r: insert(%r, ..) out of range changed the content to %r" % (b, p, d.get("VS")), case))
+                if sval(d.get("WS")) != ("s", zs.encode("utf-8")):
+                    vs.append(Violation("utf8:insert-string:argument-changed", "%r: insert(%r, w) changed w to %r" % (b, p, d.get("WS")), case))
+            elif 0 <= p <= len(cps):
+                vs.append(Violation("utf8:insert-string-refused", "%r: insert(%d, %s) refused: %s" % (b, p, src, run), case))
+    for src in ("w", "v"):
+        run, d = st[k], st[k + 1].get("vars", {})
+        k += 2
+        ins = zs if src == "w" else text
+        want = (text + ins).encode("utf-8")
+        if run.get("r") != "ok" or sval(d.get("VS")) != ("s", want) or sval(d.get("VN")) != ("i", len(text + ins)) or sval(d.get("VR")) != ("i", len(want)):
+            vs.append(Violation("utf8:concat:%s" % ("self" if src == "v" else "other"), "%r: concat(%s) gives %s %r count %r rawsize %r, Python says %r" % (
+                b, src, run.get("r"), d.get("VS"), d.get("VN"), d.get("VR"), want), case))
+        if run.get("r") == "ok" and sval(d.get("WS")) != ("s", zs.encode("utf-8")):
+            vs.append(Violation("utf8:concat:argument-changed", "%r: concat(w) changed w to %r" % (b, d.get("WS")), case))
     if sval(final.get("WS")) != ("s", b + b"A"):
         vs.append(Violation("utf8:copy-append", "%r: copy + append(65) gives %r" % (b, final.get("WS")), case))
     return vs, True
@@ -576,7 +622,7 @@ ARGV = {
     "TL": ["tab()", 'tab(0, "")', 'tab(2, "a")'],
     "TB": ["tab()", "tab(1, true)"],
     "TN": ["tab()", "tab(1, 1.5)"],
-    "O": None,
+    "O": ["o", "o2", "onull", "fwrong()", "vwrong", "fown()"],
     "VL": ["sv"], "VX": ["xv"], "VR": ["rv"], "VT": ["tv"],
 }
 METHODS = {
@@ -584,7 +630,8 @@ METHODS = {
                          ("deserialize_next", ["L", "VT"]), ("in_error", []), ("error_pos", [])]),
     "utf8": ('utf8("héllo")', [("empty", []), ("count", []), ("rawsize", []), ("reserve", ["I"]), ("clear", []), ("append", ["I"]), ("append", ["L"]),
                                ("string", []), ("at", ["I"]), ("remove", ["I", "I"]), ("insert", ["I", "I"]), ("substr", ["I"]), ("substr", ["I", "I"]),
-                               ("toupper", []), ("tolower", []), ("normalize", []), ("capitalize", []), ("translit", [])]),
+                               ("toupper", []), ("tolower", []), ("normalize", []), ("capitalize", []), ("translit", []),
+                               ("concat", ["O"]), ("insert", ["I", "O"]), ("=utf8", ["O"])]),
     "file": ('file(path, "w+")', [("close", []), ("open", ["L", "L"]), ("write", ["L"]), ("write", ["X"]), ("flush", []), ("readln", ["VL"]), ("read", ["VL", "I"]),
                                   ("read", ["VX", "I"]), ("seekset", ["I"]), ("seekcur", ["I"]), ("seekend", ["I"]), ("position", []), ("isopen", []), ("mode", []),
                                   ("filename", []), ("dirname", []), ("basename", []), ("stat", []), ("stat", ["L"]), ("dir", ["L"]), ("separator", []),
@@ -615,7 +662,14 @@ def lattice_gen(tier):
                     for args in itertools.product(*doms) if doms else [()]:
                         path = os.path.join(sdir(), "l-%d-%d" % (os.getpid(), n % 64))
                         prog = "import %s; o = %s; %s sv = \"\"; xv = raw(); rv = tup(); tv = tab(0, \"\"); zz = 0;" % (mod, ctor, sprep)
+                        if mod == "utf8":
+                            # objects to offer where a utf8 object is expected: own, another one, null, and objects of another module that
+                            # reach the call through a function whose declared result type is utf8
+                            prog += (' import csv; o2 = utf8("w\xc3\xb6rld"); onull = o2; onull = null; function fwrong() return utf8 is begin return csv(","); end; '
+                                     'function fown() return utf8 is begin return utf8("fn"); end; vwrong = fwrong();')
                         call = "zz = o.%s(%s);" % (mname, ", ".join(args))
+                        if mname.startswith("="):
+                            call = "zz = %s(%s);" % (mname[1:], ", ".join(args))
                         ops = ["isolate", op_ctx(0, True), "rmfile %s" % hx(path), op_setvar("PATH", "s" + path.encode().hex()), op_setvar("VNUL", "s" + b"a\x00b".hex()),
                                op_run(prog), op_run(call), op_run(call), op_run("zz = 1; o = null;")]
                         yield Case("m%d" % n, ops, {"kind": "lattice", "mod": mod, "state": sname, "call": call})
